@@ -9,7 +9,7 @@ use blsful::inner_types::{Field, Group};
 use blsful::*;
 use serde_json::json;
 
-pub const RULE: &str = "recipient keys (random) x plaintext scalars from E (1,2,3,r-1,r-2,2^254,...,random) x 2 groups: decrypt(sk) must equal m*H where H is recomputed by the reference as hash_to_curve(compress(P), ENC_DST) in the key group; the library's message_generator() must equal the reference's bytes. Sums of k in {2,3,16} ciphertexts through every Add / AddAssign impl (6) must decrypt to (sum m_i)*H. Decryption shares built with the public public_key_share_with_generator(share, c1) for every (t,n) with n<=4 (quick) / n<=5 (thorough): every subset in ascending, reversed and shuffled order; >=t must decrypt to m*H via ElGamalDecryptionKey::from_shares, <t must not. Proofs: verify(pk), verify_and_decrypt(sk)==m*H, the reference verifier accepts the library's proof and reproduces its challenge from the merlin transcript, the library accepts a reference-built proof; perturbations that must be rejected: c1+G, c2+G, c1<->c2, each of the 3 scalars +1, challenge of another proof, ciphertext of another proof, other pk, -pk, pk+G; verify_and_decrypt with a non-matching key. Distinct by (suite,kind,inputs).";
+pub const RULE: &str = "recipient keys (random) x plaintext scalars from E (1,2,3,r-1,r-2,2^254,...,random) x 2 groups: decrypt(sk) must equal m*H where H is recomputed by the reference as hash_to_curve(compress(P), ENC_DST) in the key group; the library's message_generator() must equal the reference's bytes. Sums of k in {2,3,16} ciphertexts through every Add / AddAssign impl (6) must decrypt to (sum m_i)*H, for five plaintext patterns: random, wrapping around r, cancelling to zero (the sum decrypts to the identity), 1 + (r-1) + cancelling rest, summing to one. All workloads run in the release and in the checked (debug assertions + overflow checks) build. Decryption shares built with the public public_key_share_with_generator(share, c1) for every (t,n) with n<=4 (quick) / n<=5 (thorough): every subset in ascending, reversed and shuffled order; >=t must decrypt to m*H via ElGamalDecryptionKey::from_shares, <t must not. Proofs: verify(pk), verify_and_decrypt(sk)==m*H, the reference verifier accepts the library's proof and reproduces its challenge from the merlin transcript, the library accepts a reference-built proof; perturbations that must be rejected: c1+G, c2+G, c1<->c2, each of the 3 scalars +1, challenge of another proof, ciphertext of another proof, other pk, -pk, pk+G; verify_and_decrypt with a non-matching key. Distinct by (suite,kind,inputs).";
 
 pub fn run(ctx: &mut Ctx) {
     for_both!(run_suite, ctx);
@@ -44,7 +44,8 @@ fn run_suite<C: Suite>(ctx: &mut Ctx) {
     }
     // sums
     for &k in &[2usize, 3, 16] {
-        for rep in 0..ctx.tier.pick(1, 4) {
+        // plaintext patterns 0..5 (see sums) x repetitions
+        for rep in 0..ctx.tier.pick(5, 20) {
             g += 1;
             if !ctx.mine(g) {
                 continue;
@@ -230,14 +231,42 @@ fn sums<C: Suite>(ctx: &mut Ctx, g: u64, k: usize, rep: usize) {
     let sk = sk_from_rs::<C>(&key);
     let pk = sk.public_key();
     let mut ms: Vec<RS> = (0..k).map(|_| gen::random_scalar(&mut rng)).collect();
-    if rep % 2 == 1 {
-        ms[0] = -RS::ONE; // r-1
-        ms[1] = RS::ONE + RS::ONE; // wraps around the group order
+    let pattern = match rep % 5 {
+        0 => "random",
+        1 => {
+            ms[0] = -RS::ONE; // r-1
+            ms[1] = RS::ONE + RS::ONE; // wraps around the group order
+            "wraps-around-r"
+        }
+        2 => {
+            // the plaintexts cancel: the sum encrypts 0 and must decrypt to 0*H (the identity)
+            let partial = ms[..k - 1].iter().fold(RS::ZERO, |a, b| a + *b);
+            ms[k - 1] = -partial;
+            "sum-is-zero"
+        }
+        3 => {
+            // the two named edge plaintexts next to each other: 1 + (r-1) = 0, rest cancels too
+            ms[0] = RS::ONE;
+            ms[1] = -RS::ONE;
+            if k > 2 {
+                let partial = ms[2..k - 1].iter().fold(RS::ZERO, |a, b| a + *b);
+                ms[k - 1] = -partial;
+            }
+            "one-plus-r-minus-one"
+        }
+        _ => {
+            let partial = ms[..k - 1].iter().fold(RS::ZERO, |a, b| a + *b);
+            ms[k - 1] = RS::ONE - partial;
+            "sum-is-one"
+        }
+    };
+    if ms.iter().any(|m| bool::from(m.is_zero())) {
+        return; // (k = 2 with a cancelling random tail cannot give a zero plaintext; guard anyway)
     }
     let total = ms.iter().fold(RS::ZERO, |a, b| a + *b);
     let want = hm::<C>(&total);
     let cts: Vec<ElGamalCiphertext<C>> = ms.iter().map(|m| pk.encrypt_key_el_gamal(&sk_from_rs::<C>(m)).expect("encrypt")).collect();
-    let d = |what: &str| json!({"what":what,"suite":n,"k":k});
+    let d = |what: &str| json!({"what":what,"suite":n,"k":k,"plaintext_pattern":pattern,"plaintexts_be":ms.iter().map(|m| hex::encode(m.to_be_bytes())).collect::<Vec<_>>(),"sk_be":hex::encode(key.to_be_bytes())});
     // six ways of adding
     let mut results: Vec<(&str, ElGamalCiphertext<C>)> = Vec::new();
     let mut a = cts[0]; for c in &cts[1..] { a = a + *c; } results.push(("T+T", a));
@@ -247,7 +276,7 @@ fn sums<C: Suite>(ctx: &mut Ctx, g: u64, k: usize, rep: usize) {
     let mut a = cts[0]; for c in &cts[1..] { a += *c; } results.push(("T+=T", a));
     let mut a = cts[0]; for c in &cts[1..] { a += c; } results.push(("T+=&T", a));
     for (op, sum) in results {
-        let got = enc_pt(&sum.decrypt(&sk));
+        let Some(got) = ctx.guard("ElGamalCiphertext::decrypt (sum)", || d(op), || enc_pt(&sum.decrypt(&sk))) else { continue };
         ctx.expect(got == want, &format!("C14/sum-wrong/{n}/{op}"), || { let mut x = d("the sum of ciphertexts does not decrypt to the sum of the plaintexts"); x["op"] = json!(op); x });
         // component-wise
         let c1 = refimpl::sum(cts.iter().map(|c| rpk_pt::<C>(&c.c1)));
